@@ -16,7 +16,7 @@ SHARD_TIMEOUT = {"quick": 240, "thorough": 1500}
 
 
 def plan(tier, seed):
-    return sse.scheme_shards(tier, per_scheme_quick=2, per_scheme_thorough=3, budget_quick=12, budget_thorough=300)
+    return sse.scheme_shards(tier, per_scheme_quick=2, per_scheme_thorough=3, budget_quick=12, budget_thorough=220)
 
 
 def norm(scheme, r):
